@@ -42,20 +42,22 @@ Theorem C18_ncv_range ncv_max m ncv_new : (1 <= ncv_max)%Q ->
   (1 <= expmv_ncv_next ncv_max m ncv_new /\ expmv_ncv_next ncv_max m ncv_new <= ncv_max)%Q /\ exists z : Z, expmv_ncv_next ncv_max m ncv_new = inject_Z z.
 Proof. intro H. destruct (ncv_next_range ncv_max m ncv_new H) as (A & B & C). exact (conj (conj A B) C). Qed.
 
-Theorem C18_ncv0_range ncv ncv_max : (1 <= ncv_max)%Q -> (1 <= expmv_ncv0 ncv ncv_max /\ expmv_ncv0 ncv ncv_max <= ncv_max)%Q.
-Proof. exact (ncv0_range ncv ncv_max). Qed.
+Theorem C18_ncv0_range ncv vsize : (1 <= expmv_ncv0 ncv /\ expmv_ncv0 ncv <= expmv_ncv_max (expmv_ncv0 ncv) vsize)%Q.
+Proof. exact (ncv0_range ncv vsize). Qed.
+Theorem C18_ncv_max_grows ncv_max supp : (ncv_max <= expmv_ncv_max_grow ncv_max supp)%Q.
+Proof. exact (ncv_max_grows ncv_max supp). Qed.
 
 Theorem C18_dims_expmv lenV : expmv_m_happy lenV = krylov_m true lenV /\ expmv_m_unhappy lenV = krylov_m false lenV.
 Proof. exact (expmv_m_spec lenV). Qed.
-Theorem C18_dims_eigs happy lenV : (1 <= lenV)%Q ->
-  eigs_m happy lenV = krylov_m happy lenV /\ eigs_kept (eigs_m happy lenV) = eigs_T_dim (eigs_m happy lenV)
-  /\ (eigs_kept (eigs_m happy lenV) <= lenV)%Q /\ (happy = true -> (eigs_kept (eigs_m happy lenV) == lenV)%Q).
-Proof. exact (eigs_dims happy lenV). Qed.
-Theorem C18_dims_lin_solver happy lenV : (1 <= lenV)%Q -> let m := lin_solver_m happy lenV in
-  m = krylov_m happy lenV /\ (lin_solver_T_rows m == lin_solver_rhs_len m)%Q /\ (lin_solver_T_cols m == lin_solver_kept m)%Q
+Theorem C18_dims_eigs happy lenV supp : (1 <= lenV)%Q -> let m := eigs_m_cap (eigs_m happy lenV) supp in
+  eigs_m happy lenV = krylov_m happy lenV /\ eigs_kept m = eigs_T_dim m /\ (eigs_kept m <= lenV)%Q /\ (eigs_kept m <= supp)%Q
+  /\ (happy = true -> (lenV <= supp)%Q -> (eigs_kept m == lenV)%Q).
+Proof. exact (eigs_dims happy lenV supp). Qed.
+Theorem C18_dims_lin_solver happy lenV supp : (1 <= lenV)%Q -> let m := lin_solver_m_cap (lin_solver_m happy lenV) supp in
+  lin_solver_m happy lenV = krylov_m happy lenV /\ (lin_solver_T_rows m == lin_solver_rhs_len m)%Q /\ (lin_solver_T_cols m == lin_solver_kept m)%Q
   /\ (lin_solver_T_rows m <= lin_solver_T_dim m)%Q /\ (lin_solver_T_cols m <= lin_solver_T_dim m)%Q
-  /\ (lin_solver_kept m <= lenV)%Q /\ (happy = true -> (lin_solver_kept m == lenV)%Q).
-Proof. exact (lin_solver_dims happy lenV). Qed.
+  /\ (lin_solver_kept m <= lenV)%Q /\ (lin_solver_kept m <= supp)%Q /\ (happy = true -> (lenV <= supp)%Q -> (lin_solver_kept m == lenV)%Q).
+Proof. exact (lin_solver_dims happy lenV supp). Qed.
 
 Theorem C18_expand_krylov ncv hermitian brk lenV0 ks0 : (1 <= lenV0)%Z -> (forall k, has k ks0 = pattern hermitian (lenV0 - 1) k) ->
   let r := expand_krylov ncv hermitian brk lenV0 ks0 in
@@ -104,6 +106,7 @@ Print Assumptions C18_accepted_fits.
 Print Assumptions C18_rejected_keeps_time.
 Print Assumptions C18_ncv_range.
 Print Assumptions C18_ncv0_range.
+Print Assumptions C18_ncv_max_grows.
 Print Assumptions C18_dims_expmv.
 Print Assumptions C18_dims_eigs.
 Print Assumptions C18_dims_lin_solver.
